@@ -294,6 +294,15 @@ def current_model(c):
     return c._model
 
 
+def raise_if_harness(e):
+    """an engine error wrapped by aioslsk (MessageDeserializationError from HarnessError) is not a verdict"""
+    seen = 0
+    while e is not None and seen < 10:
+        if isinstance(e, symex.HarnessError):
+            raise e
+        e, seen = (e.__cause__ or e.__context__), seen + 1
+
+
 def real_eq(a, b):
     try:
         return bool(a == b)
@@ -342,13 +351,19 @@ def h_message(c, cls_name, S, A, long, part=0, parts=1, rich=False):
         g.commit()
         try:
             m, exp = cls(**kw), cls(**exp_kw)
+        except symex.HarnessError:
+            raise
         except Exception as e:  # noqa
+            raise_if_harness(e)
             c.check(False, 'constructible', sig=sig, info=repr(e))
             return
         # ---- encode -----------------------------------------------------------------------
         try:
             raw = m.serialize()
+        except symex.HarnessError:
+            raise
         except Exception as e:  # noqa
+            raise_if_harness(e)
             c.check(False, 'encode_total', sig=sig, info=repr(e))
             return
         c.reach('encoded')
@@ -367,7 +382,10 @@ def h_message(c, cls_name, S, A, long, part=0, parts=1, rich=False):
         # (a) decode(encode(m)) == m
         try:
             back = cls.deserialize(0, raw)
+        except symex.HarnessError:
+            raise
         except Exception as e:  # noqa
+            raise_if_harness(e)
             back = e
             c.check(False, 'decode_total', sig=sig, info=repr(e))
         if not isinstance(back, Exception):
@@ -378,7 +396,10 @@ def h_message(c, cls_name, S, A, long, part=0, parts=1, rich=False):
             conn = make_connection(L['group'], L['kind'], obf)
             try:
                 wire = conn.encode_message_data(m)
+            except symex.HarnessError:
+                raise
             except Exception as e:  # noqa
+                raise_if_harness(e)
                 c.check(False, 'encode_total', sig=csig, info=repr(e))
                 continue
             if obf:
@@ -392,7 +413,10 @@ def h_message(c, cls_name, S, A, long, part=0, parts=1, rich=False):
                     got = M.ServerMessage.deserialize_request(O.decode(wire) if obf else wire)
                 else:
                     got = conn.decode_message_data(wire)
+            except symex.HarnessError:
+                raise
             except Exception as e:  # noqa
+                raise_if_harness(e)
                 c.check(False, 'decode_total', sig=csig, info=repr(e) + ' / ' + repr(e.__cause__))
                 continue
             c.reach('roundtrip_connection')
@@ -420,6 +444,7 @@ def h_message(c, cls_name, S, A, long, part=0, parts=1, rich=False):
         except symex.HarnessError:
             raise
         except Exception as e:  # noqa
+            raise_if_harness(e)
             ok = False
             info = {'shape': shape, 'exc': repr(e)}
         c.check(ok, 'real_codec_witness', sig=sig, info=info)
@@ -475,7 +500,10 @@ def h_element(c, what, S, A, long, rich=False):
                 buf.extend(junk_a)
                 kls(v).serialize_into(buf, *([record_class(sub[7:]) if sub.startswith('record:') else getattr(P, sub)] if sub else []))
                 into = buf[pre:]
+        except symex.HarnessError:
+            raise
         except Exception as e:  # noqa
+            raise_if_harness(e)
             c.check(False, 'encode_total', sig=sig, info=repr(e))
             return
         c.reach('element_encoded')
@@ -487,7 +515,10 @@ def h_element(c, what, S, A, long, rich=False):
                 pos, back = kls.deserialize(pre, data, record_class(sub[7:]) if sub.startswith('record:') else getattr(P, sub))
             else:
                 pos, back = kls.deserialize(pre, data)
+        except symex.HarnessError:
+            raise
         except Exception as e:  # noqa
+            raise_if_harness(e)
             c.check(False, 'decode_total', sig=sig, info=repr(e))
             return
         c.check(pos == pre + len(raw), 'element_position', sig=sig, info=info)
@@ -535,7 +566,10 @@ def h_obfuscation(c, lo, hi):
             dec_other = O.decode(key + other)
             enc_gen = O.encode(data)
             head = O.decode(enc[:8]) if n >= 4 else None
+        except symex.HarnessError:
+            raise
         except Exception as e:  # noqa
+            raise_if_harness(e)
             c.check(False, 'obf_total', sig=sig, info=repr(e))
             return
         c.reach('obfuscated')
